@@ -187,6 +187,11 @@ COMBINATORS = {
     "std::result::Result::map_or": ("res", ("val", ("call", 2)), ("val", ("arg", 1))),
     "std::result::Result::is_ok_and": ("res", ("val", ("call", 1)), ("bool", False)),
     "std::result::Result::is_err_and": ("res", ("bool", False), ("val", ("call", 1))),
+    "std::result::Result::ok": ("res", ("wrap", "Some", "x"), ("none",)),
+    "std::result::Result::err": ("res", ("none",), ("wrap", "Some", "x")),
+    "std::result::Result::inspect_err": ("res", ("wrap", "Ok", "x"), ("tap", "Err", ("call", 1))),
+    "std::result::Result::inspect": ("res", ("tap", "Ok", ("call", 1)), ("wrap", "Err", "x")),
+    "std::option::Option::inspect": ("opt", ("tap", "Some", ("call", 1)), ("none",)),
 }
 ENUMS = {"opt": ("std::option::Option", [["0", "None"], ["1", "Some"]], "Some", "None"),
          "res": ("std::result::Result", [["0", "Ok"], ["1", "Err"]], "Ok", "Err")}
@@ -393,7 +398,7 @@ class Normalizer:
                     pass
                 else:
                     # only the discriminant read (and storage markers) before the switch
-                    if any(s["k"] == "assign" and not (s["rv"]["k"] == "discr") for s in cur.blocks[W]["s"]):
+                    if any(s["k"] == "assign" and not (s["rv"]["k"] == "discr") and s.get("inl") != "subject" for s in cur.blocks[W]["s"]):
                         continue
                     plan = self._thread_plan(cur, W, L, c)
                 if not plan:
@@ -759,6 +764,11 @@ class Normalizer:
             elif act[0] == "val":
                 op, cur_bb = source(act[1], cur_bb)
                 rv = {"k": "use", "op": op}
+            elif act[0] == "tap":
+                # `.inspect_err(f)`: f looks at the payload, the value passes through unchanged
+                _ign, cur_bb = source(act[2], cur_bb)
+                wadt = "std::option::Option" if act[1] in ("Some", "None") else "std::result::Result"
+                rv = {"k": "agg", "ak": "adt", "adt": wadt, "variant": act[1], "fields": ["0"], "ops": [pay], "def": None, "ety": None}
             else:
                 op, cur_bb = source(act[2], cur_bb)
                 wadt = "std::option::Option" if act[1] in ("Some", "None") else "std::result::Result"
